@@ -10,7 +10,7 @@ import RedisVerif.Model.Glue
     L <i> D <key> | L <i> HW … | L <i> HD …  (same syntax as the C08 driver after the node index)
     V <j> <idx>                              → ok        (deliver message idx of the history to node j)
     STATE <i>                                → <n> (<key> <rv> ;)*
-    CHECK <key>                              → delivered=<b> compat=<K|-> agree=<b> agreefull=<b>
+    CHECK <key>                              → delivered=<b> compat=<K|-> two=<b> agree=<b> agreeexp=<b>   (two = C06.TwoDeltas)
 
   Layer 2 (glue model `Model/Glue.lean`; a separate cluster of `Glue.Node`s):
     GN <n> <causal01>                        → ok
@@ -81,7 +81,7 @@ def step (c : Cluster) (line : String) : Cluster × String :=
     match runP (do expect "CHECK"; strKey) line with
     | some k =>
       let comp := match compatK c k with | some K => toString K | none => "-"
-      (c, s!"delivered={b01 (decide (C06.Delivered c k))} compat={comp} agree={b01 (agreeB c k)} agreeexp={b01 (agreeExpB c k)}")
+      (c, s!"delivered={b01 (decide (C06.Delivered c k))} compat={comp} two={b01 (decide (C06.TwoDeltas c k))} agree={b01 (agreeB c k)} agreeexp={b01 (agreeExpB c k)}")
     | none => (c, "bad-op")
   | "L" :: i :: _ =>
     match i.toNat? with
